@@ -71,11 +71,11 @@ var c03Keys = []string{"a", "b", "c", "d", "e", "f", "g", "zz", "k1", "10", "9",
 func genMapDesc(t *rapid.T, depth int, label string) *E {
 	n := rapid.IntRange(2, 8).Draw(t, label+"n")
 	keys := rapid.Permutation(c03Keys).Draw(t, label+"keys")[:n]
-	typ := rapid.SampledFrom([]string{"", "", "map[string]int", "map[string]string", "map[int]string", "map[iface]"}).Draw(t, label+"typ")
+	typ := rapid.SampledFrom([]string{"", "", "map[string]int", "map[string]string", "map[int]string", "map[iface]", "map[int64]string", "map[uint64]string"}).Draw(t, label+"typ")
 	vals := make([]*E, n)
 	for i := range vals {
 		switch {
-		case typ == "map[string]string" || typ == "map[int]string":
+		case typ == "map[string]string" || typ == "map[int]string" || typ == "map[int64]string" || typ == "map[uint64]string":
 			vals[i] = Str(fmt.Sprintf("v%d", rapid.IntRange(0, 20).Draw(t, "sv")))
 		case typ == "" && depth > 0 && rapid.IntRange(0, 3).Draw(t, "nest") == 0:
 			vals[i] = genMapDesc(t, depth-1, label+"s")
@@ -131,13 +131,15 @@ func dupHashLiteral(t *rapid.T) string {
 	n := rapid.IntRange(3, 7).Draw(t, "dn")
 	var parts []string
 	for i := 0; i < n; i++ {
-		k := rapid.SampledFrom([]string{"a", "b", "c"}).Draw(t, "dk")
-		parts = append(parts, fmt.Sprintf("'%s': %d", k, i+1))
+		// the same key written in several ways: a string, a number, a computed key
+		k := rapid.SampledFrom([]string{"'a'", "'a'", "'b'", "'c'", "'1'", "1", "('a' ~ '')", "('' ~ 1)", "'id'", "('i' ~ 'd')"}).Draw(t, "dk")
+		parts = append(parts, fmt.Sprintf("%s: %d", k, i+1))
 	}
 	return "{" + strings.Join(parts, ", ") + "}"
 }
 
-var c03PrintForms = []string{"{{ V }}", "{{ V|json_encode }}", "{{ [V, V]|join(',') }}", "{% for x in [V] %}{{ x }}{% endfor %}", "{{ V|default('d') }}", "{{ V ~ '' }}", "{{ dump(V) }}"}
+var c03PrintForms = []string{"{{ V }}", "{{ V|json_encode }}", "{{ [V, V]|join(',') }}", "{% for x in [V] %}{{ x }}{% endfor %}", "{{ V|default('d') }}", "{{ V ~ '' }}", "{{ dump(V) }}",
+	"{{ V|trim }}", "{{ V|upper }}", "{{ V|replace({'1': 'x'}) }}", "{{ V|length }}", "{{ V|e }}", "{{ '%s'|format(V) }}", "{{ V|split(',')|join('/') }}"}
 
 var phpDate = map[byte]string{'d': "02", 'D': "Mon", 'j': "2", 'l': "Monday", 'F': "January", 'm': "01", 'M': "Jan", 'n': "1", 'Y': "2006", 'y': "06",
 	'a': "pm", 'A': "PM", 'g': "3", 'G': "15", 'h': "03", 'H': "15", 'i': "04", 's': "05"}
@@ -239,7 +241,10 @@ func genC03(t *rapid.T) (C03Case, []string, bool) {
 	default:
 		// values printed by value, never by address
 		var v *E
-		switch rapid.IntRange(0, 11).Draw(t, "vshape") {
+		switch rapid.IntRange(0, 12).Draw(t, "vshape") {
+		case 12:
+			// pointers to scalars of every width
+			v = ZPtr(ZT(Int(int64(rapid.IntRange(0, 99).Draw(t, "pwi"))), rapid.SampledFrom([]string{"int8", "int16", "int32", "int64", "uint", "uint8", "uint16", "uint32", "uint64", "float32", "float64", "named"}).Draw(t, "pwidth")))
 		case 0:
 			v = ZPtr(Int(int64(rapid.IntRange(0, 99).Draw(t, "pi"))))
 		case 1:
@@ -277,7 +282,7 @@ func genC03(t *rapid.T) (C03Case, []string, bool) {
 	}
 }
 
-const c03Rule = "templates that iterate, filter or print maps (untyped, map[string]int, map[string]string, map[int]string, map[interface{}]interface{}, nested; 2-8 entries) and hash literals with 2-8 entries through for k,v / for v / first / keys / merge / join / json_encode / dump / nested loops / set accumulation; date filters with formats drawn from all 18 translated letters and safe literals (incl. the README's 'D, d M Y'); pointers, structs, typed slices, arrays and named types printed in 7 positions. random(), the current date, empty dates and pointers nested inside printed composites are excluded by construction. non-trivial = a map/hash with >= 2 entries is iterated, filtered or printed, or a date format has >= 2 translated letters, or a non-basic value is printed; distinct by (source, context description)"
+const c03Rule = "templates that iterate, filter or print maps (untyped, map[string]int, map[string]string, map[int]string, map[int64]string and map[uint64]string with keys beyond 2^53, map[interface{}]interface{}, nested; 2-8 entries) and hash literals with 2-8 entries (also with one key written twice or in several ways: string, number, computed) through for k,v / for v / first / keys / merge / join / json_encode / dump / nested loops / set accumulation; date filters with formats drawn from all 18 translated letters and safe literals (incl. the README's 'D, d M Y'); pointers (to scalars of every width, strings, slices, maps), structs, typed slices, arrays and named types printed in 14 positions (print, filters taking a string, join, format, loops). random(), the current date, empty dates and pointers nested inside printed composites are excluded by construction. non-trivial = a map/hash with >= 2 entries is iterated, filtered or printed, or a date format has >= 2 translated letters, or a non-basic value is printed; distinct by (source, context description)"
 
 func TestC03Determinism(t *testing.T) {
 	r := NewRec(t, "C03", c03Rule)
